@@ -37,7 +37,13 @@
     project_config.go loadConfig on a root directory whose dawn.toml / .dawnconfig are [toml] / [dot] (missing, not a
     configuration, a configuration); [project_config toml dot]: the project's configuration (dawn.toml's when there
     is one); [load_config_loop_former]: loadConfig before 15786e0, where [rne c] (the error mvs.BuildList reports for
-    the requirements c unwraps to fs.ErrNotExist) decided. *)
+    the requirements c unwraps to fs.ErrNotExist) decided.
+    Requirement paths as they are written (Mvs/Paths.v): [clean_path_full p] is project.CleanPath, which LoadConfigBytes
+    applies to every requirement path of every configuration ([path_clean] = path.Clean; the major suffix is what follows
+    the last '@' of the last path element; "", "v0" and "v1" are dropped); [load_universe U] / [load_root root]: the
+    configuration files of [U] / the root's, whose requirement paths are as written, after LoadConfigBytes;
+    [dawn_build_list_written] = BuildList on those; [plain_elem m]: no '/' and no '@' in [m]. *)
+From Dawn Require Import Mvs.Paths Mvs.Proofs_Paths.
 From Dawn Require Import Mvs.Spec Mvs.Proofs_C10 Mvs.Cache Mvs.Proofs_Cache Mvs.Load Mvs.Proofs_Load Mvs.Locate
   Mvs.Proofs_Locate Mvs.Gate Mvs.Proofs_Gate Mvs.LoadRoot Mvs.Proofs_LoadRoot.
 
@@ -246,6 +252,57 @@ Theorem config_file_fallback :
 Proof. exact Proofs_Gate.config_file_fallback. Qed.
 Print Assumptions config_file_fallback.
 
+(** "each once": one project is one vertex however its path is written.  A requirement path written with a major suffix
+    loads as JoinPathVersion(path.Clean(path), major), whatever the slash path looks like ... *)
+Theorem written_path_loads_as :
+  forall p m : str, plain_elem m -> clean_path_full (p ++ c_at :: m) = join_path_version (path_clean p) m.
+Proof. exact Proofs_Paths.written_path_loads_as. Qed.
+Print Assumptions written_path_loads_as.
+
+(** ... so "lib@", "lib@v0" and "lib@v1" load as the path "lib" loads as (the repository lists v0 and v1 tags without a
+    suffix), and two slash paths that path.Clean identifies load alike under every suffix *)
+Theorem redundant_major_is_folded :
+  forall p m : str, m = [] \/ m = s_v0 \/ m = s_v1 ->
+    clean_path_full (p ++ c_at :: m) = path_clean p /\
+    (split_path_version p = (p, []) -> clean_path_full p = path_clean p) /\
+    (forall q m', plain_elem m' -> path_clean p = path_clean q ->
+                  clean_path_full (p ++ c_at :: m') = clean_path_full (q ++ c_at :: m')).
+Proof.
+  intros p m H. exact (conj (Proofs_Paths.redundant_major_is_folded p m H)
+                      (conj (Proofs_Paths.plain_path_loads_clean p)
+                            (fun q m' Hm E => Proofs_Paths.spellings_load_alike p q m' Hm E))).
+Qed.
+Print Assumptions redundant_major_is_folded.
+
+(** the string under which the repository lists a tag (JoinPathVersion of a clean slash path) is written as it loads *)
+Theorem listed_path_is_fixed :
+  forall a m : str, path_clean a = a -> split_path_version a = (a, []) -> plain_elem m ->
+    clean_path_full (join_path_version a m) = join_path_version a m.
+Proof. exact Proofs_Paths.listed_path_is_fixed. Qed.
+Print Assumptions listed_path_is_fixed.
+
+(** the build list of configuration files as written is the MVS solution of the graph of the LOADED requirements *)
+Theorem written_build_list_spec :
+  forall (pick : list node -> nat) (U : universe) (root : config) (fuel : nat),
+    (written_fuel U root <= fuel)%nat ->
+    let req := u_required (load_universe U) (map snd (load_root root)) in
+    (unresolvable req target -> dawn_build_list_written pick fuel U root = Err) /\
+    (~ unresolvable req target ->
+     exists l, dawn_build_list_written pick fuel U root = Ok l /\
+               mvs_solution (reachable_from (load_universe U) (map snd (load_root root))) l).
+Proof. exact Proofs_Paths.written_build_list_spec. Qed.
+Print Assumptions written_build_list_spec.
+
+(** ... hence configuration files that differ only in how requirement paths are spelled have one build list *)
+Theorem build_list_spelling_independent :
+  forall (pick1 pick2 : list node -> nat) (U1 U2 : universe) (root1 root2 : config) (fuel1 fuel2 : nat),
+    load_universe U1 = load_universe U2 ->
+    same_set (map snd (load_root root1)) (map snd (load_root root2)) ->
+    (written_fuel U1 root1 <= fuel1)%nat -> (written_fuel U2 root2 <= fuel2)%nat ->
+    dawn_build_list_written pick1 fuel1 U1 root1 = dawn_build_list_written pick2 fuel2 U2 root2.
+Proof. exact Proofs_Paths.build_list_spelling_independent. Qed.
+Print Assumptions build_list_spelling_independent.
+
 (** the version order behind "highest": a total order on canonical versions with "none" least and the root's
     empty version greatest *)
 Theorem version_order_total :
@@ -328,3 +385,16 @@ Example c10_locate_example :
 Proof.
   cbv zeta. split; [|split]; [repeat constructor..|]. vm_compute. repeat split; reflexivity.
 Qed.
+
+(** requirement paths as written: the universe of c10_example with its requirements spelled in other ways -- c under
+    "r/c@v1", "r/./c" and "./r/x/../c@v0" at different versions -- has the build list of the plainly written one *)
+Example c10_paths_example :
+  let a := [114; 47; 97] in let b := [114; 47; 98] in let c := [114; 47; 99] in let c2 := [114; 47; 99; 64; 118; 50] in
+  let v x y z := VSem (mkSV x y z []) in
+  let U := mkU [114] [((a, v 1 0 0), 1); ((b, v 1 0 0), 1); ((c, v 1 1 0), 1); ((c, v 1 2 0), 2); ((c2, v 2 0 0), 2)]
+               [((a, 1), mkSum [] [([114;47;99;64;118;49]%N, v 1 1 0); ([114;47;47;99;47;46;64;118;50]%N, v 2 0 0)]); ((b, 1), mkSum [] [([114;47;46;47;99]%N, v 1 2 0)]);
+                ((c, 1), mkSum [] []); ((c, 2), mkSum [] [([46;47;114;47;120;47;46;46;47;97;64;118;48]%N, v 1 0 0)])] [] [] [] in
+  dawn_build_list_written (fun _ => O) 20 U [(a, ([114;47;97;47]%N, v 1 0 0)); (b, ([120;47;46;46;47;114;47;98;64]%N, v 1 0 0))]
+  = Ok [([], VRoot); (a, v 1 0 0); (b, v 1 0 0); (c, v 1 2 0); (c2, v 2 0 0)]
+  /\ clean_path_full [46;47;114;47;120;47;46;46;47;99;64;118;48]%N = c /\ clean_path_full [114;47;99;47;115;117;98;47;46;46;64;118;50]%N = c2 /\ path_clean c = c /\ split_path_version c = (c, []).
+Proof. vm_compute. repeat split; reflexivity. Qed.
